@@ -62,6 +62,13 @@ func sigCanon(s detection.Signature) string {
 	if c.IdentifyingFeatures.ControlFlow != nil && *c.IdentifyingFeatures.ControlFlow == (detection.ControlFlowHints{}) {
 		c.IdentifyingFeatures.ControlFlow = nil
 	}
+	// the two zeros are one number (the gob encoding of a record keeps no sign for it)
+	if c.EntropyScore == 0 {
+		c.EntropyScore = 0
+	}
+	if c.EntropyTolerance == 0 {
+		c.EntropyTolerance = 0
+	}
 	b, _ := json.Marshal(c)
 	return string(b)
 }
